@@ -86,6 +86,26 @@ def run(chk):
                 "focus": "foo/v1/focus.j5s", "cls": "bundle-one-way"})
     res2 = chk.replay("lang-compile", raw, "raw", workers=W, timeout="30s")
     chk.absorb("lang-compile", raw, res2)
+    # multi-file / multi-package bundles of the j5s language model (spec/J5Schema.tla): imports by package, alias and file
+    # path, references across files and packages in every cardinality, services, topics - all valid, all must compile
+    rb = chk.tlc("J5CompileMC.tla", "J5Compile_quick.cfg", "bundles", workers=W, timeout=3000, heap="12g")
+    bundles = rb.cases
+    rb.cases = []
+    if quick:
+        # every focus construct once per base bundle shape, the rest a seeded sample
+        rnd = random.Random(chk.seed)
+        rnd.shuffle(bundles)
+        seen, first, rest = set(), [], []
+        for c in bundles:
+            k = (c.get("focus", ""), len(c["ast"]["pkgs"]), sum(len(p["files"]) for p in c["ast"]["pkgs"]))
+            (rest if k in seen else first).append(c)
+            seen.add(k)
+        bundles = first + rest[:3000]
+    bundles = [{"focus": c.get("focus", ""), "ast": c["ast"]} for c in bundles]
+    res3 = chk.replay("lang-bundle", bundles, "bundles", workers=W, timeout="60s")
+    chk.absorb("lang-bundle", bundles, res3)
+    chk.extra_cov["bundles_compiled"] = sum(1 for e in res3 if ((e.get("out") or {}).get("obs") or {}).get("files"))
+    chk.extra_cov["bundles"] = len(bundles)
     # direction T
     events = []
     rejected_valid = 0
